@@ -419,6 +419,70 @@ func runC16(c *Ctx) {
 			if !bytes.Equal(st5.Request().Marshal(), enc5) || !bytes.Equal(append(append([]byte{}, ts[0].Marshal()...), ts[1].Marshal()...), m5) {
 				return "type5: an earlier request encoding or token changed after finalizing again"
 			}
+			// issuer Evaluate only reads the request it is given: the request object's fields (for a request that was never
+			// encoded, for one that was, and for one decoded from wire bytes, whose fields are views of those bytes) and the
+			// wire bytes keep their contents
+			{
+				nb1, nb2, nb5 := r.Bytes(32), r.Bytes(32), [][]byte{r.Bytes(32), r.Bytes(32), r.Bytes(32)}
+				f1, err := type1.NewBasicPrivateClient().CreateTokenRequest(ch, nb1, w.i1.TokenKeyID(), w.i1.TokenKey())
+				must(err)
+				f2, err := type2.NewBasicPublicClient().CreateTokenRequest(ch, nb2, w.i2.TokenKeyID(), w.i2.TokenKey())
+				must(err)
+				f5, err := type5.NewBatchedPrivateClient().CreateTokenRequest(ch, nb5, w.i5.TokenKeyID(), w.i5.TokenKey())
+				must(err)
+				snap := func(fs [][]byte) [][]byte {
+					var o [][]byte
+					for _, f := range fs {
+						o = append(o, append([]byte{}, f[:cap(f)]...))
+					}
+					return o
+				}
+				same := func(fs, held [][]byte) bool {
+					for i := range fs {
+						if !bytes.Equal(fs[i][:cap(fs[i])], held[i]) {
+							return false
+						}
+					}
+					return true
+				}
+				// never encoded before the issuer sees them
+				h1, h2, h5 := snap([][]byte{f1.Request().BlindedReq}), snap([][]byte{f2.Request().BlindedReq}), snap(f5.Request().BlindedReq)
+				w.i1.Evaluate(f1.Request())
+				w.i2.Evaluate(f2.Request())
+				w.i5.Evaluate(f5.Request())
+				if !same([][]byte{f1.Request().BlindedReq}, h1) || !same([][]byte{f2.Request().BlindedReq}, h2) || !same(f5.Request().BlindedReq, h5) {
+					return "issuer Evaluate changed the fields of the request object it was given"
+				}
+				e1, e2, e5 := f1.Request().Marshal(), f2.Request().Marshal(), f5.Request().Marshal()
+				d1, d2, d5 := &type1.BasicPrivateTokenRequest{}, &type2.BasicPublicTokenRequest{}, &type5.BatchedPrivateTokenRequest{}
+				w1, w2, w5 := append([]byte{}, e1...), append([]byte{}, e2...), append([]byte{}, e5...)
+				if !d1.Unmarshal(w1) || !d2.Unmarshal(w2) || !d5.Unmarshal(w5) {
+					return "honest request encoding refused"
+				}
+				w.i1.Evaluate(d1)
+				w.i2.Evaluate(d2)
+				w.i5.Evaluate(d5)
+				w.i5.Evaluate(d5)
+				if !bytes.Equal(w1, e1) || !bytes.Equal(w2, e2) || !bytes.Equal(w5, e5) {
+					return "issuer Evaluate changed the wire bytes its request was decoded from"
+				}
+				if !bytes.Equal(d1.Marshal(), e1) || !bytes.Equal(d2.Marshal(), e2) || !bytes.Equal(d5.Marshal(), e5) {
+					return "issuer Evaluate changed the request object decoded from the wire"
+				}
+				// the generic batch issuer likewise
+				breq, err := batched.NewBasicClient().CreateTokenRequest([]tokens.TokenRequestWithDetails{f1.Request(), f2.Request()})
+				must(err)
+				be := append([]byte{}, breq.Marshal()...)
+				bw := append([]byte{}, be...)
+				bd := &batched.BatchedTokenRequest{}
+				if !bd.Unmarshal(bw) {
+					return "honest batch encoding refused"
+				}
+				w.bi.EvaluateBatch(bd)
+				if !bytes.Equal(bw, be) || !bytes.Equal(bd.Marshal(), be) || !same([][]byte{f1.Request().BlindedReq}, h1) || !same([][]byte{f2.Request().BlindedReq}, h2) {
+					return "EvaluateBatch changed the batch request it was given, or the wire bytes it was decoded from"
+				}
+			}
 			// issuer: evaluating again does not disturb an earlier response
 			q := &type1.BasicPrivateTokenRequest{}
 			q.Unmarshal(enc1)
